@@ -211,6 +211,8 @@ def run(chk):
         check_processor_ownership(chk, v, procs, lib_statics)
         # R8 key and parameter objects are shared between threads: evaluation must not write through them
         check_shared_arguments(chk, v, evalfns)
+        # R9 no branch or loop of the evaluation closure is decided by an address
+        check_address_independence(chk, v, reach)
 
 
 # ------------------------------------------------------------------------------ R7: a per-thread processor owns its buffers
@@ -388,3 +390,90 @@ def check_shared_arguments(chk, v, evalfns):
         chk.require(not bad, "R8", "%s writes nothing reachable from the key / parameter objects it shares with other threads" % f.name, where=f.where,
                     ok="shared arguments %s are only read" % shared_params, bad="; ".join(sorted(bad))[:500], variant=vn)
     chk.vcount(vn, "R8.functions_with_shared_arguments", n)
+
+
+# ------------------------------------------------------------------------------ R9: control flow does not depend on addresses
+def address_dependent_conditions(body):
+    """conditions (if / loop / ?: / switch) under body whose value depends on the numeric value of an address: a pointer converted
+    to an integer, directly or through locals computed from one.  (An integer turned back into a pointer -- an aligned buffer --
+    is a pointer again; pointer differences and comparisons of pointers into one object are not addresses.)  -> [(line, kind)]"""
+    def addr_in(e, tainted):
+        stack = [e]
+        while stack:
+            n = stack.pop()
+            if isinstance(n, list):
+                stack.extend(n)
+                continue
+            if not isinstance(n, dict):
+                continue
+            if n.get("k") == "cast" and n.get("ck") == "IntegralToPointer":
+                continue
+            if n.get("k") == "cast" and n.get("ck") == "PointerToIntegral":
+                return True
+            if n.get("k") == "ref" and n.get("id") in tainted:
+                return True
+            stack.extend(x for x in n.values() if isinstance(x, (dict, list)))
+        return False
+    tainted = set()
+    for _ in range(6):
+        before = len(tainted)
+        for n in walk(body):
+            if n.get("k") == "var" and n.get("init") is not None and "id" in n and not str(n.get("t", "")).rstrip().endswith("*") \
+                    and addr_in(n["init"], tainted):
+                tainted.add(n["id"])
+            elif n.get("k") == "assign" and isinstance(n.get("a"), dict) and n["a"].get("k") == "ref" and "id" in n["a"] \
+                    and not str(n["a"].get("t", "")).rstrip().endswith("*") and addr_in(n.get("b"), tainted):
+                tainted.add(n["a"]["id"])
+        if len(tainted) == before:
+            break
+    out, ncond = [], 0
+    for n in walk(body):
+        if n.get("k") in ("if", "for", "while", "do", "cond", "switch") and isinstance(n.get("c"), dict):
+            ncond += 1
+            if addr_in(n["c"], tainted):
+                out.append((n.get("l"), n["k"]))
+    return out, ncond
+
+
+_R9_EXAMPLE = """#include <stdint.h>
+void peeled(int *res, const double *src, int N) {
+    int i = 0;
+    for (; i < N && (uintptr_t(res + i) & 31) != 0; i++) res[i] = (int) src[i];
+    uintptr_t a = (uintptr_t) res;
+    if (a % 16) res[0] = 1;
+}
+void clean(int *res, const double *src, int N) {
+    double *al = (double *) (((uintptr_t) src + 31) & ~(uintptr_t) 31);
+    for (int i = 0; i < N && res + i != res + N; i++) res[i] = (int) al[i];
+}
+"""
+
+
+def check_address_independence(chk, v, reach):
+    from sa.facts import parse_snippet
+    vn = v.name
+    if not getattr(chk, "_r9_selftest", False):
+        ex = parse_snippet(_R9_EXAMPLE, "r9_example")
+        hit, _n = address_dependent_conditions(ex["peeled"]["body"])
+        miss, _m = address_dependent_conditions(ex["clean"]["body"])
+        if len(hit) != 2 or miss:
+            chk.broken("R9: the detector of address-dependent conditions does not behave as expected on its example (%s / %s)" % (hit, miss))
+        chk._r9_selftest = True
+    found, nfun, ncond = [], 0, 0
+    for u in reach:
+        g = v.defs.get(u)
+        if g is None or not g.file.startswith(("libtfhe", "include")):
+            continue
+        nfun += 1
+        hits, n = address_dependent_conditions(g.d.get("body"))
+        ncond += n
+        found += ["%s:%s (%s in %s)" % (g.file, l, k, g.name) for l, k in hits]
+    chk.vcount(vn, "R9.conditions_inspected", ncond)
+    if found:
+        # which alternative runs depends on where the allocator placed a buffer, i.e. on the thread and on what ran before; that
+        # is harmless only if all alternatives compute the same values, which this analysis cannot establish for scalar-versus-
+        # vector code: it is reported as undecided, never as a pass
+        chk.broken("C06.R9: control flow of the evaluation closure depends on an address at %s; the result is history-independent only if "
+                   "every alternative computes the same values, which is not decided" % "; ".join(found[:3]))
+    chk.proved("R9", "no branch or loop condition of the evaluation closure depends on the numeric value of an address", where="libtfhe",
+               detail="%d conditions in %d functions inspected (pointer-to-integer conversions, directly or through locals)" % (ncond, nfun), variant=vn)
